@@ -337,7 +337,8 @@ def handle (q : Sx) : String :=
        let firstBad := match bad with
          | [] => "-"
          | a :: _ => s!"{a.name}{showVals a.idx}"
-       s!"ok {showVals vals} {accs.length} {nAff} {bad.length} {firstBad}"
+       -- last field: out-of-bounds accesses of ANY kind (also data-dependent subscripts)
+       s!"ok {showVals vals} {accs.length} {nAff} {bad.length} {firstBad} {(accs.filter fun a => !a.ok).length}"
      | _, _, _ => "err:parse")
   | .list [.atom "normslice", a, b, c, n] =>
     (match a.asOptInt?, b.asOptInt?, c.asInt?, n.asInt? with
